@@ -88,7 +88,12 @@ def gen_image(rng, kind=None, img_id=1):
     """An image file description:
        {'ext': 'ssd'|'sdd'|'dsd'|'ddd'|'mmb', 'surfaces': [surface json...], 'slots': {slot: [status, surface_idx|None]}}
     Surfaces of one image share img_id and differ in 'side'."""
-    kind = kind or rng.weighted([(5, 'single'), (3, 'interleaved'), (2, 'mmb')])
+    kind = kind or rng.weighted([(5, 'single'), (3, 'interleaved'), (2, 'mmb'), (2, 'two-sided')])
+    if kind == 'two-sided':
+        # both sides one after the other in a non-interleaved file
+        im = gen_image(rng, kind='interleaved', img_id=img_id)
+        im['ext'] = 'ssd' if im['ext'] == 'dsd' else 'sdd'
+        return im
     if kind == 'single':
         d = gen_disc(rng, img_id=img_id)
         return {'ext': d['ext'], 'surfaces': [d['surface']]}
